@@ -634,6 +634,23 @@ def modelHeads : List (String × List Nat) := [
 
 theorem C07_key_table_ok : Pcore.Generated.keyHeads = modelHeads := by decide
 
+/-- the name every type key starts with is the literal the Go `Name()` method returns (regenerated on every run) -/
+def bytesStr (bs : Bytes) : String := String.ofList (bs.map fun c => Char.ofNat c.toNat)
+def modelTypeNames : List (String × String) := [
+  ("AnyType", bytesStr Ty.any.name), ("UndefType", bytesStr Ty.undef.name), ("stringType", bytesStr Ty.str.name),
+  ("IntegerType", bytesStr (Ty.int 0 0).name), ("FloatType", bytesStr (Ty.flt 0 0).name), ("EnumType", bytesStr (Ty.enum false []).name),
+  ("ArrayType", bytesStr (Ty.arr .any 0 0).name), ("VariantType", bytesStr (Ty.var []).name), ("TupleType", bytesStr (Ty.tup [] none).name),
+  ("OptionalType", bytesStr (Ty.opt .any).name), ("TypeType", bytesStr (Ty.typ .any).name), ("DefaultType", bytesStr (Ty.nul .dflt).name),
+  ("UnitType", bytesStr (Ty.nul .unit).name), ("ScalarType", bytesStr (Ty.nul .scalar).name), ("ScalarDataType", bytesStr (Ty.nul .scalarData).name),
+  ("NumericType", bytesStr (Ty.nul .numeric).name), ("BinaryType", bytesStr (Ty.nul .binary).name), ("SemVerRangeType", bytesStr (Ty.nul .semverRange).name),
+  ("BooleanType", bytesStr (Ty.bool none).name), ("CollectionType", bytesStr (Ty.coll 0 0).name), ("NotUndefType", bytesStr (Ty.un .notUndef .any).name),
+  ("SensitiveType", bytesStr (Ty.un .sensitive .any).name), ("IterableType", bytesStr (Ty.un .iterable .any).name),
+  ("IteratorType", bytesStr (Ty.un .iterator .any).name), ("RegexpType", bytesStr (Ty.rx []).name), ("PatternType", bytesStr (Ty.pattern []).name),
+  ("TypeReferenceType", bytesStr (Ty.tref []).name), ("SemVerType", bytesStr (Ty.semverT [] []).name), ("HashType", bytesStr (Ty.hash .any .any 0 0).name),
+  ("LikeType", bytesStr (Ty.like .any []).name), ("CallableType", bytesStr calD.name), ("RuntimeType", bytesStr (Ty.runtime [] [] none).name),
+  ("StructType", bytesStr (Ty.struct []).name)]
+theorem C07_type_names_ok : Pcore.Generated.typeNames = modelTypeNames := by decide
+
 /-- sixteen kinds, sixteen different two-byte heads (Array = HashEntry, Tuple = every other type, true/false share one) -/
 theorem C07_prefixes_distinct : ((Pcore.Generated.keyHeads.map (·.2.take 2)).eraseDups).length = 16 := by decide
 
